@@ -2,7 +2,7 @@
 
 ENGINES = [
     {'name': 'vloop', 'path': 'vp/vloop.py', 'serves_properties': ['C03'], 'kind_free_text': 'virtual asyncio loop with explicit, classified ready-queue (order-preserving-delay scheduler seam)'},
-    {'name': 'explore', 'path': 'vp/explore.py', 'serves_properties': ['C03', 'C06', 'C19'], 'kind_free_text': 'deviation-bounded stateless schedule explorer (replay prefix on fresh objects, divergence = harness error)'},
+    {'name': 'explore', 'path': 'vp/explore.py', 'serves_properties': ['C03', 'C06', 'C19', 'C20'], 'kind_free_text': 'deviation-bounded stateless schedule explorer (replay prefix on fresh objects, divergence = harness error)'},
     {'name': 'enumerate', 'path': 'vp/props/*.py', 'serves_properties': ['C01', 'C02', 'C04', 'C05', 'C10', 'C11', 'C14', 'C15', 'C18'], 'kind_free_text': 'bounded-exhaustive enumeration of inputs/histories against a Python reference model, executed on the real code'},
 ]
 
@@ -101,6 +101,14 @@ CLAIMS['C11'] = {
     'technique': 'exhaustive enumeration of permission-flag combinations x link security states x every reading/writing ATT operation form x placements x bearers on the real GATT server, against a permission predicate written from the statement',
     'text': 'One secret-bearing target attribute in 9 placements (characteristic value static/dynamic/long, descriptor, alone, first/middle/last among same-typed attributes, group-typed) x all 256 permission combinations (quick: 256 for value/descriptor, 32-set lattice elsewhere) x {plain, encrypted, encrypted+authenticated (+authenticated only)} x {ATT, EATT} x 27 read forms (Read, Read Blob at 4 offsets, Read By Type x5, Read Multiple / Variable x5 each, Read By Group Type x4, Find By Type Value x3 with value = secret) and 7 write forms; constructor-made declarations and CCCDs as targets. A refused read leaks no 3-byte window of the secret and is answered by a corresponding access error where the operation has a response; a refused write leaves the value unchanged and the write callback uncalled.',
     'note': 'Encryption key size is not modelled; authorisation is never granted. Five recorded findings share one root cause: READABLE/WRITEABLE flags are never tested (repair would break 70 repository tests).',
+}
+
+CLAIMS['C20'] = {
+    'level': 'exploration',
+    'engine': 'explore',
+    'technique': 'bounded-exhaustive enumeration of RFCOMM geometries x write sequences x DLC operation histories on two real stacks with an independent wire decoder and credit ledger, deviation-bounded schedule exploration, exhaustive HFP feature-subset and AT-command arity/value enumeration',
+    'text': 'stream: max frame size per side {23,24,127,128,129,1000,32767} x initial credits 1..7 x L2CAP MTU per side x ACL packet length (<=2 parameters off default, 490 configurations) x write-size sequences both directions {1,E-1,E,E+1,3E,20E,..} x 3 issue modes: exact bytes at each sink, drain() done, payload <= announced N1 (N1-1 with credit octet), frame <= peer L2CAP MTU, wire-derived credit ledger never <= 0 at send. multi: every operation history of depth 5 (6) over 3 DLCs (open, close by either side, transfer, concurrent open/close, two simultaneous closes, shutdown, restart) with model/wire/both ends compared after every op. sched: 5 scripts under all order-preserving delays <=1 (<=2) deviations. slc: 32x32 feature subsets the SLC code branches on x indicator/codec/call-hold lists: SLC completes, both ends agree. at: every AG handler at arity n-1..n+1 x value classes x AG states and every HF-emitted command: exactly one final result code, AG not wedged.',
+    'note': 'Frame sizes are boundary values; only client-initiated DLCs; MSC flow control / RPN / RLS not modelled. "Negotiated maximum" is read per direction (a frame fits what its receiver announced).',
 }
 
 NOT_CLAIMED = {}
